@@ -1,0 +1,11 @@
+//go:build verif
+
+package bech32
+
+// Verification hooks: aliases of unexported functions, compiled only with -tags verif.
+
+// VerifPolymod is bech32Polymod.
+func VerifPolymod(values []byte) int { return bech32Polymod(values) }
+
+// VerifHrpExpand is bech32HrpExpand.
+func VerifHrpExpand(s string) []byte { return bech32HrpExpand(s) }
